@@ -31,6 +31,9 @@ func checkC03(r *Run) propMeta {
 	checkTargetIndexAgreement(r)
 	checkSnapshotRelinks(r)
 	checkFrameGuardAgreement(r)
+	checkCountEveryOccurrence(r)
+	checkParameterMergeTotal(r)
+	checkBoundFlagRole(r)
 	r.Floor("C03-a-parameter-closure", 5)
 	r.Floor("C03-b-dml-origin", 8)
 	r.Floor("C03-d-walk-error", 5)
